@@ -76,6 +76,64 @@ Definition earliest_ok (I nu63 funding o : Z) : bool :=
   else negb (anchor_set_empty I nu63 funding o) && ((o =? 0) || anchor_set_empty I nu63 funding (o - 1)).
 
 (* ------------------------------------------------------------------------------------------ *)
+(** * Schedule shifts *)
+
+(** the anchor of an unproved transfer after its schedule moved to [s']: when an admissible
+    boundary exists for the shifted schedule (at or above the prior anchor, strictly below the
+    most recent boundary of [s'], within the age cap) the anchor is one of them; otherwise the
+    prior anchor is kept *)
+Definition shift_anchor_ok (I prior s' b : Z) : bool :=
+  if forallb (fun c => negb (redraw_ok I prior s' c)) (age_candidates I s')
+  then b =? prior
+  else redraw_ok I prior s' b.
+
+Definition oz_eq (x y : option Z) : bool :=
+  match x, y with Some a, Some b => a =? b | None, None => true | _, _ => false end.
+
+(** one row before ([p]) and after ([q]) a shift by [delta] *)
+Definition tx_shift_ok (I delta : Z) (p q : Z * bool * Z * Z * option Z) : bool :=
+  let '(st, tr, sched, ex, an) := p in
+  let '(st', tr', sched', ex', an') := q in
+  (st' =? st) && Bool.eqb tr' tr && (ex' =? ex) &&                       (* expiry is never touched *)
+  if (st =? 3) || (st =? 4) then (sched' =? sched) && oz_eq an' an       (* in flight / mined: unmoved *)
+  else
+    (sched' =? Z.min u32_max (sched + delta)) &&
+    if ((st =? 0) || (st =? 1)) && tr then
+      match an, an' with
+      | Some prior, Some b => (prior <=? b) && shift_anchor_ok I prior sched' b
+      | None, None => true
+      | _, _ => false
+      end
+    else oz_eq an' an.
+
+Fixpoint forall2b {A} (f : A -> A -> bool) (l l' : list A) : bool :=
+  match l, l' with
+  | [], [] => true
+  | x :: r, y :: r' => f x y && forall2b f r r'
+  | _, _ => false
+  end.
+
+Definition tx_same (p q : Z * bool * Z * Z * option Z) : bool :=
+  let '(st, tr, sched, ex, an) := p in
+  let '(st', tr', sched', ex', an') := q in
+  (st' =? st) && Bool.eqb tr' tr && (sched' =? sched) && (ex' =? ex) && oz_eq an' an.
+
+(** a quarter of the transfer-delay mean scaled to the interval, at least one block *)
+Definition tolerance_spec (I : Z) : Z :=
+  let m := TRANSFER_DELAY_MEAN * I / ZIP318_INTERVAL in
+  Z.max 1 ((if m =? 0 then 1 else Z.min m u32_max) / 4).
+
+(** a late wake-up served at [served], the first row being the one served *)
+Definition shift_ok (I served : Z) (pre post : list (Z * bool * Z * Z * option Z)) : bool :=
+  match pre with
+  | [] => match post with [] => true | _ => false end
+  | (_, _, s0, _, _) :: _ =>
+      if Z.min u32_max (s0 + tolerance_spec I) <? served
+      then forall2b (tx_shift_ok I (served - s0)) pre post
+      else forall2b tx_same pre post
+  end.
+
+(* ------------------------------------------------------------------------------------------ *)
 (** * Wake-ups *)
 
 (** proving window of a transfer (a, b) at the observed tip: [ready, deadline]; overdue when
